@@ -15,8 +15,8 @@
       it *is* the location the operating system reaches: `accepted_canonical`, `trace_inside_on_disk`.
       The law is PROVED for the specified resolver `FS.resolve` (`spec_resolver_lawful`,
       `resolve_idempotent`) and is an explicit hypothesis for any other resolver; for CPython 3.12's
-      real algorithm (`FS.py312Resolve`) it is sampled by the harness on every run, not proved here
-      (`…_partial` in that respect, see the end of the file).
+      real algorithm (`FS.py312Resolve`) it is proved only on the branch where no symlink loop is met
+      (`py312_lawful_partial`, see the end of the file) and sampled by the harness on every run.
     * `noncanonical_root_refuses_all`: a root that is not canonical refuses everything (safe).
     * negation witness for the code BEFORE the fix: `prefix_escape_witness`.
   Trusted / outside: the real `Path.resolve()` and the OS; races between the check and the open.
@@ -739,13 +739,120 @@ theorem fixed_code_refuses_witness :
         .resolve ⟨1, ["r".toList, "l".toList, "secret.csv".toList]⟩], .error .loadError) := by
   decide
 
+/-! ## CPython 3.12's resolver: canonical whenever it does not give up -/
+
+/-- every finished entry of the realpath cache is canonical -/
+def SeenCanon (fs : FS) (seen : Seen) : Prop := ∀ k v, (k, some v) ∈ seen → Canon fs v
+
+theorem seenLookup_mem {seen : Seen} {k : Segs} {v : Option Segs} (h : seenLookup seen k = some v) :
+    (k, v) ∈ seen := by
+  unfold seenLookup at h
+  cases hf : seen.find? (fun kv => kv.1 == k) with
+  | none => simp [hf] at h
+  | some kv =>
+    simp [hf] at h
+    have hm := List.mem_of_find?_eq_some hf
+    have hk := List.find?_some hf
+    simp at hk
+    obtain ⟨a, b⟩ := kv
+    simp at hk h
+    subst hk; subst h
+    exact hm
+
+/-- when CPython's `_joinrealpath` does not give up, it returns a canonical path -/
+theorem joinReal_ok_canon (fs : FS) : ∀ (n : Nat) (acc todo : Segs) (seen : Seen) (q : Segs) (seen' : Seen),
+    Canon fs acc → SeenCanon fs seen → joinReal fs n acc todo seen = (q, true, seen') →
+    Canon fs q ∧ SeenCanon fs seen' := by
+  intro n
+  induction n with
+  | zero =>
+    intro acc todo seen q seen' hc hs h
+    cases todo with
+    | nil => simp [joinReal] at h; obtain ⟨rfl, rfl⟩ := h; exact ⟨hc, hs⟩
+    | cons s rest => simp [joinReal] at h
+  | succ n ih =>
+    intro acc todo seen q seen' hc hs h
+    cases todo with
+    | nil => simp [joinReal] at h; obtain ⟨rfl, rfl⟩ := h; exact ⟨hc, hs⟩
+    | cons s rest =>
+      simp only [joinReal] at h
+      by_cases h1 : isDot s = true
+      · simp [h1] at h; exact ih _ _ _ _ _ hc hs h
+      · by_cases h2 : isDotDot s = true
+        · simp [h1, h2] at h
+          exact ih _ _ _ _ _ (canon_prefix hc (List.dropLast_prefix acc)) hs h
+        · simp only [h1, h2] at h
+          cases hl : readlink fs (acc ++ [s]) with
+          | none =>
+            simp [hl] at h
+            exact ih _ _ _ _ _ (canon_snoc hc (by simpa using h1) (by simpa using h2) hl) hs h
+          | some t =>
+            simp [hl] at h
+            cases hk : seenLookup seen (acc ++ [s]) with
+            | none =>
+              simp [hk] at h
+              have hs1 : SeenCanon fs ((acc ++ [s], none) :: seen) := by
+                intro k v hm
+                simp at hm
+                exact hs k v hm
+              cases hj : joinReal fs n (if t.isAbsolute = true then [] else acc) t.segs ((acc ++ [s], none) :: seen) with
+              | mk p rest2 =>
+                obtain ⟨b, seen2⟩ := rest2
+                cases b with
+                | false => simp [hj] at h
+                | true =>
+                  simp [hj] at h
+                  have hstart : Canon fs (if t.isAbsolute = true then [] else acc) := by
+                    by_cases ha : t.isAbsolute = true <;> simp [ha, hc, canon_nil]
+                  obtain ⟨hp, hs2⟩ := ih _ _ _ _ _ hstart hs1 hj
+                  have hs3 : SeenCanon fs ((acc ++ [s], some p) :: seen2) := by
+                    intro k v hm
+                    simp at hm
+                    rcases hm with ⟨_, rfl⟩ | hm
+                    · exact hp
+                    · exact hs2 k v hm
+                  exact ih _ _ _ _ _ hp hs3 h
+            | some o =>
+              cases o with
+              | none => simp [hk] at h
+              | some cached =>
+                simp [hk] at h
+                exact ih _ _ _ _ _ (hs _ _ (seenLookup_mem hk)) hs h
+
+theorem normSegs_canon_aux (fs : FS) : ∀ (q acc : Segs), (∀ s ∈ q, plain s) →
+    q.foldl (fun acc s => if isDot s then acc else if isDotDot s then acc.dropLast else acc ++ [s]) acc = acc ++ q := by
+  intro q
+  induction q with
+  | nil => intro acc _; simp
+  | cons s rest ih =>
+    intro acc h
+    have hs : plain s := h s (by simp)
+    simp [List.foldl, hs.1, hs.2]
+    rw [ih _ (fun x hx => h x (by simp [hx]))]
+    simp
+
+/-- **CPython 3.12's `resolve()` returns a canonical path whenever it does not meet a symlink loop** -/
+theorem py312_lawful_partial (fs : FS) (c : PPath) (q : Segs) (seen : Seen)
+    (h : joinReal fs fs.fuel [] (if c.isAbsolute then c.segs else fs.cwd ++ c.segs) [] = (q, true, seen)) :
+    fs.py312Resolve c = some q ∧ Canon fs q := by
+  have hq := (joinReal_ok_canon fs _ _ _ _ _ _ (canon_nil fs) (by intro k v hm; simp at hm) h).1
+  refine ⟨?_, hq⟩
+  have hn : normSegs q = q := by
+    have := normSegs_canon_aux fs q [] hq.1
+    simpa [normSegs] using this
+  simp [FS.py312Resolve, h, hn]
+
+
 /-
   PARTIAL (stated in full, proved in part):
 
     theorem py312_lawful (fs : FS) : FixpointCanonical fs fs.py312Resolve
 
-  "a path that CPython 3.12's `resolve()` maps to itself, and whose `stat()` does not run into a symlink loop,
-  has no symlink component" is NOT proved here.  What is proved: the law for the specified resolver
+  Proved above: `py312_lawful_partial` — whenever CPython's `_joinrealpath` does not give up at a symlink loop
+  its result is canonical (so on loop-free inputs the real algorithm satisfies the law).  NOT proved: the
+  give-up branch, i.e. "a path that `resolve()` maps to itself through the give-up branch, and whose `stat()`
+  does not run into a loop, has no symlink component" (it needs a simulation between the cached recursive
+  algorithm and the plain walk).  What is proved without it: the law for the specified resolver
   (`spec_resolver_lawful`), every loader theorem for an arbitrary resolver, and — lexically, without the law —
   containment, ordering and reporting for `py312Resolve` too.  The law for the real `Path.resolve()` is sampled
   by the harness on every run (every accepted path is compared with the operating system's real path).
